@@ -84,6 +84,21 @@ func c18Impl(in []int64) []int64 {
 			v[i], items[i] = int(in[6+i]), i
 		}
 		qs, _ := GetList(in[6+n:])
+		if (maxV+int64(n))%3 == 0 {
+			// an earlier call on the same element type whose tie-breaker panicked half way (recovered by the caller): whatever
+			// that call left behind (pooled scratch maps, caches) must not reach the result of this one
+			func() {
+				defer func() { recover() }()
+				pv := []int{5, 5, 7, 3, 2}
+				algz.FindDpSolvers(40, []int{90, 91, 92, 93, 94}, func(i int) int { return pv[i-90] }, true,
+					func(old, new []int) bool { panic("tie-breaker gives up") })
+			}()
+			func() {
+				defer func() { recover() }()
+				algz.Knapsack(9, []int{90, 91, 92}, func(i int) int { return 3 }, func(i int) int { return 2 },
+					func(old, new []int) bool { panic("tie-breaker gives up") })
+			}()
+		}
 		dp := algz.FindDpSolvers(int(maxV), items, func(i int) int { return v[i] }, allow, c18Breaker(bk, salt)...)
 		keys := make([]int, 0, len(dp))
 		for k := range dp {
